@@ -181,7 +181,7 @@ theorem c08_h2_every_stream_from_own_request (site : Site) (e : SrvEnv) (h2r : R
 theorem c08_h1_h2_same_request_partial (o : Opts) (mf : Nat) (m t a : Bytes) (fs : List (Bytes × Bytes))
     (hm : methodTable.contains m = true) (hmne : m ≠ []) (hnc : m ≠ ofString "CONNECT")
     (hnp : m ≠ ofString "POST") (htsl : t.head? = some slash)
-    (htok : (if o.headerStrict then (if o.ctrlsReject then false else t.any uriCharInvalidStrict)
+    (htok : (if o.headerStrict then (if o.ctrlsReject then fragmentInvalidStrict t else t.any uriCharInvalidStrict)
              else t.any (fun b => b = 0 || b = cr || b = lf)) = false)
     (hane : a ≠ []) (halen : a.length < 1024) (haval : a.any lineCharInvalidStrict = false)
     (hpl : ∀ kv ∈ fs, PlainField o kv) (hsz : fieldsSize (pseudoFields m t a) + fieldsSize fs ≤ mf)
@@ -196,7 +196,7 @@ theorem c08_h1_h2_same_request_partial (o : Opts) (mf : Nat) (m t a : Bytes) (fs
 theorem c08_h2_field_loop_same_record (o : Opts) (mf : Nat) (m t a : Bytes) (fs : List (Bytes × Bytes))
     (hm : methodTable.contains m = true) (hmne : m ≠ []) (hnc : m ≠ ofString "CONNECT")
     (htsl : t.head? = some slash)
-    (htok : (if o.headerStrict then (if o.ctrlsReject then false else t.any uriCharInvalidStrict)
+    (htok : (if o.headerStrict then (if o.ctrlsReject then fragmentInvalidStrict t else t.any uriCharInvalidStrict)
              else t.any (fun b => b = 0 || b = cr || b = lf)) = false)
     (hane : a ≠ []) (halen : a.length < 1024) (haval : a.any lineCharInvalidStrict = false)
     (hpl : ∀ kv ∈ fs, PlainField o kv) (hsz : fieldsSize (pseudoFields m t a) + fieldsSize fs ≤ mf) :
